@@ -233,6 +233,23 @@ fn check_arrival(_seed: u64) -> i32 {
             if got != exp { return fail("arrival::ExtrapolatingCurve::number_arrivals", format!("{{\"dmin\": {:?}, \"delta\": {}, \"history\": \"30,7,31,1,12,29 alternating two clones\"}}", orig, delta), format!("{:?}", got), format!("{:?} (eagerly extrapolated curve)", exp)); }
         }
     }}}}
+    // C13 "never yields more arrivals than the un-extrapolated curve claims": holds for the caching variant at every delta and
+    // for the eager variant up to the extended horizon (beyond it: known finding KF12)
+    for a in 1..=4u64 { for b in a..=7u64 { for c in b..=10u64 {
+        let plain = Curve::new(vec![d(a), d(b), d(c)]);
+        let x = arrival::ExtrapolatingCurve::new(plain.clone());
+        for delta in [55u64, 3, 41, 0, 17, 9, 26, 60, 1] {
+            let (g, e) = (x.number_arrivals(d(delta)), plain.number_arrivals(d(delta)));
+            if g > e { return fail("arrival::ExtrapolatingCurve::number_arrivals(only tightens)", format!("{{\"dmin\": [{}, {}, {}], \"delta\": {}}}", a, b, c, delta), format!("{}", g), format!("<= {}", e)); }
+        }
+        for h in [c + 1, 2 * c, 3 * c + 1, 40] {
+            let mut ex = plain.clone(); ex.extrapolate(d(h));
+            for delta in 0..=h {
+                let (g, e) = (ex.number_arrivals(d(delta)), plain.number_arrivals(d(delta)));
+                if g > e { return fail("arrival::Curve::extrapolate(only tightens up to the horizon)", format!("{{\"dmin\": [{}, {}, {}], \"horizon\": {}, \"delta\": {}}}", a, b, c, h, delta), format!("{}", g), format!("<= {}", e)); }
+            }
+        }
+    }}}
     // FromIterator: running maximum of the input distances
     for a in 0..=5u64 { for b in 0..=5u64 { for c in 1..=5u64 {
         let cu: Curve = [a, b, c].iter().map(|x| d(*x)).collect();
@@ -341,6 +358,23 @@ fn check_wcet_demand(_seed: u64) -> i32 {
             if g != exp { return fail("wcet::Curve::from_trace", format!("{{\"trace\": {:?}, \"max_n\": {}, \"k\": {}}}", tr, max_n, k), format!("cost_of_jobs = {}", g), format!("{}", exp)); }
         }
     }}
+    // C14 "extrapolation never raises a bound": holds for the caching variant at every n, and for the eager variant within
+    // the extended prefix (beyond it: known finding KF11)
+    for a in 1..=5u64 { for b in a..=8u64 { for c in b..=10u64 {
+        let plain = wcet::Curve::new(vec![s(a), s(b), s(c)]);
+        let x = wcet::ExtrapolatingCurve::new(plain.clone());
+        for n in [24usize, 3, 17, 0, 9, 5, 12, 1, 20] {
+            let (g, e) = (us(x.cost_of_jobs(n)), us(plain.cost_of_jobs(n)));
+            if g > e { return fail("wcet::ExtrapolatingCurve::cost_of_jobs(only tightens)", format!("{{\"prefix\": [{}, {}, {}], \"n\": {}}}", a, b, c, n), format!("{}", g), format!("<= {}", e)); }
+        }
+        for k in 4..=9usize {
+            let mut ex = plain.clone(); ex.extrapolate(k);
+            for n in 0..k {   // extrapolate(k) extends to k - 1 entries, i.e. to k - 1 jobs
+                let (g, e) = (us(ex.cost_of_jobs(n)), us(plain.cost_of_jobs(n)));
+                if n <= k - 1 && g > e { return fail("wcet::Curve::extrapolate(only tightens within the extended prefix)", format!("{{\"prefix\": [{}, {}, {}], \"extrapolate\": {}, \"n\": {}}}", a, b, c, k, n), format!("{}", g), format!("<= {}", e)); }
+            }
+        }
+    }}}
     // demand: RBF = cost(na), Aggregate / Slice sums and minima, per-component restriction
     for t1 in 1..=4u64 { for c1 in 1..=3u64 { for t2 in 1..=4u64 { for c2 in 1..=3u64 { for delta in 0..=9u64 { for n in 0..=3usize {
         let r1 = RBF::new(Periodic::new(d(t1)), Scalar::new(s(c1)));
